@@ -74,16 +74,28 @@ LEVEL_NAMES = {
     'B': ['zeta', 'gamma', 'omega', 'alpha', 'mu'],
     # names needing quoting in CSV / JSON
     'C': ['lvl,one', 'lvl "two"', "lvl'three", 'lvl #4', ' lvl5'],
+    # the same node labels at every level, arranged so that a node's child
+    # carries the label of the node's sibling ("crossing" reuse)
+    'D': ['zeta', 'gamma', 'omega', 'alpha', 'mu'],
+    # names whose sorted order interleaves the children of different
+    # parents (no two name-sorted neighbours share a parent when avoidable)
+    'E': ['class', 'subclass', 'supertype', 'cluster', 'subcluster'],
 }
 
 
 def _node_name(scheme, level_idx, k, n_at_level, rnd):
-    if scheme == 'A':
+    if scheme in ('A', 'E'):
         return f'n{level_idx}_{k:02d}'
     if scheme == 'B':
         # reverse order + numeric strings that sort lexicographically
         # differently from numerically; see realize_tree for the reused name
         return f'{(n_at_level - k) * 7 + 2}_x{level_idx}'
+    if scheme == 'D':
+        # labels a, b, c, ... shared by all levels; rotating by the level
+        # index makes parent 'a' own child 'b' while 'b' is also its sibling
+        return 'abcdefghijklmnop'[(k + level_idx) % max(n_at_level, 2)
+                                  if n_at_level > 1 else
+                                  (k + level_idx) % 16] + 'x'
     if scheme == 'C':
         decorations = ['a,b', 'c "q"', "d'e", '#f', ' g', 'h;i', 'j\tk']
         return f'{decorations[(k + level_idx) % len(decorations)]}{level_idx}{k}'
@@ -122,6 +134,23 @@ def realize_tree(n_levels, shape, scheme='A', seed=0, with_cells=0,
             for c in sh:
                 nxt.append((name, c))
         frontier = nxt
+    if scheme == 'E':
+        for li in range(n_levels):
+            seen_parent = {}
+            order = []
+            for k, (name, parent, sh) in enumerate(per_level[li]):
+                j = seen_parent.get(parent, 0)
+                seen_parent[parent] = j + 1
+                order.append((j, k))
+            rank = {k: r for r, (_, k) in enumerate(sorted(order))}
+            renamed = {}
+            for k, (name, parent, sh) in enumerate(per_level[li]):
+                renamed[name] = f'e{li}_{rank[k]:02d}'
+            per_level[li] = [(renamed[n], p, sh)
+                             for (n, p, sh) in per_level[li]]
+            if li + 1 < n_levels:
+                per_level[li + 1] = [(n, renamed.get(p, p), sh)
+                                     for (n, p, sh) in per_level[li + 1]]
     if scheme == 'B' and n_levels >= 2:
         # reuse one node name at two different levels (legal: names are
         # only unique within a level)
